@@ -519,15 +519,28 @@ def render_const(chs):
     return {"c10_const": {"src/main.rs": "\n".join(lines) + "\n", "src/support.rs": SUPPORT}}, linemap
 
 
-def const_family(ws_tag, chains):
-    """collect_const! over the given chains x CONST_INPUTS in its own workspace: iterated discovery of rejected items,
-    build, run, classify.  Returns (violations, evaluated item count, machinery errors, F7-shaped known count)."""
+def const_family(ws_tag, chains, shard=120):
+    """collect_const! over the given chains x CONST_INPUTS in its own workspace (sharded over several crates so that
+    rustc's const evaluator runs in parallel): iterated discovery of rejected items, build, run, classify.
+    Returns (violations, evaluated item count, machinery errors, F7-shaped known count)."""
     ok_chain = Chain(SOURCES[0])
     mach, viol = [], []
     const_rejected = {}
     cur = list(chains)
+    nshards = max(1, (len(chains) + shard - 1) // shard)
+
+    def render_all(chs):
+        crates, lm = {}, {}
+        for si in range(nshards):
+            sub = chs[si * shard:(si + 1) * shard]
+            cr, l = render_const(sub)
+            crates[f"kc_{si}"] = cr["c10_const"]
+            for (ci, ii), ln in l.items():
+                lm[(f"kc_{si}", ln)] = (si * shard + ci, ii)
+        return crates, lm
+
     for _round in range(6):
-        crates, clinemap = render_const(cur)
+        crates, clinemap = render_all(cur)
         ws = e3.write_workspace(ws_tag, crates)
         errors, seen, rc, err = e3.check_json(ws)
         before = len(const_rejected)
@@ -535,10 +548,8 @@ def const_family(ws_tag, chains):
             for e in errs:
                 hit = False
                 for (f, line) in e["spans"]:
-                    if f.endswith(f"{tgt}/src/main.rs"):
-                        for (ci, ii), ln in clinemap.items():
-                            if ln == line:
-                                const_rejected[(ci, ii)] = e["msg"]; hit = True
+                    if f.endswith(f"{tgt}/src/main.rs") and (tgt, line) in clinemap:
+                        const_rejected[clinemap[(tgt, line)]] = e["msg"]; hit = True
                 if not hit and e["msg"] and "aborting" not in e["msg"] and "could not compile" not in e["msg"]:
                     mach.append(f"unattributed compiler error in {tgt}: {e['msg'][:300]} {e['spans'][:3]}")
         if mach or len(const_rejected) == before:
@@ -550,10 +561,16 @@ def const_family(ws_tag, chains):
     rcode, out, errtxt = e3.cargo(ws, ["build", "-q"])
     if rcode != 0:
         return viol, 0, [f"generated {ws_tag} workspace does not build after removing rejected items: " + errtxt[-1500:]], 0
-    rc3, o3, e3txt = e3.run_bin(ws, "c10_const")
-    if rc3 != 0:
-        return viol, 0, [f"runner c10_const of {ws_tag} failed: {e3txt[-500:]}"], 0
-    results = [json.loads(l) for l in o3.splitlines() if l.startswith("{")]
+    results = []
+    for si in range(nshards):
+        rc3, o3, e3txt = e3.run_bin(ws, f"kc_{si}")
+        if rc3 != 0:
+            return viol, 0, [f"runner kc_{si} of {ws_tag} failed: {e3txt[-500:]}"], 0
+        for l in o3.splitlines():
+            if l.startswith("{"):
+                r = json.loads(l)
+                r["c"] += si * shard
+                results.append(r)
     for (ci, ii), msg in const_rejected.items():
         c = chains[ci]
         viol.append({"engine": "dsl", "func": "collect_const", "replay": f"const|{ci}|{ii}", "case": f"collect_const!({c.k_src}, {', '.join(c.k)}) on const input #{ii} {CONST_INPUTS[ii]}",
